@@ -364,3 +364,12 @@ func (p *Program) invokeTarget(c *ssa.CallCommon) *ssa.Function {
 	}
 	return nil
 }
+
+func unexportedIface(t types.Type) bool {
+	n, ok := t.(*types.Named)
+	if !ok || n.Obj().Pkg() == nil || n.Obj().Exported() || !strings.HasPrefix(n.Obj().Pkg().Path(), modPath) {
+		return false
+	}
+	_, isIface := n.Underlying().(*types.Interface)
+	return isIface
+}
